@@ -276,7 +276,7 @@ fn one_recipe(ctx: &mut Ctx, parser: &CooklangParser, input: &str, factor: f64) 
 
 const NAMES1: &[&str] = &["flour", "salt", "egg", "water", "é", "oil", "Zucker", "рис"];
 const NAMESN: &[&str] = &["sea salt", "olive oil", "crème fraîche", "egg yolk", "brown  sugar", "2nd rise"];
-const UNITS: &[&str] = &["g", "kg", "ml", "cup", "cups", "tbsp", "min", "minutes", "h", "°C", "large", "l"];
+const UNITS: &[&str] = &["g", "kg", "ml", "cup", "cups", "tbsp", "min", "minutes", "h", "°C", "large", "l", "T", "t", "mL", "G"];
 const NUMS: &[&str] = &["1", "2", "200", "0.5", "1.5", "1/2", "1 1/2", "3/4", "0", "10.25", "7/3", "1000000", "0.1", "2/3"];
 const TEXTV: &[&str] = &["a few", "some", "2-3", "a pinch", "1 or 2", "01", "one"];
 const WORDS: &[&str] = &["Mix", "the", "and", "then", "bake", "until", "golden", "add", "stir", "well", "für", "10", "minutes", "slowly", "."];
@@ -431,7 +431,8 @@ fn one_combine(ctx: &mut Ctx, rng: &mut Rng, ings: &[(String, Amt)], exact: bool
 }
 
 fn gen_amount(rng: &mut Rng, exact: bool) -> Amt {
-    let unit = match rng.below(5) { 0 => None, 1 => Some(String::new()), 2 => Some("g".to_string()), 3 => Some("kg".to_string()), _ => Some("é l".to_string()) };
+    // units are keys as written: spellings that differ in case (`T` tablespoon / `t` teaspoon), width or accents are different units
+    let unit = match rng.below(9) { 0 => None, 1 => Some(String::new()), 2 => Some("g".to_string()), 3 => Some("kg".to_string()), 4 => Some("T".to_string()), 5 => Some("t".to_string()), 6 => Some(rng.pick(&["mL", "ml", "G", "Kg", "É l", " g"]).to_string()), _ => Some("é l".to_string()) };
     let num = |rng: &mut Rng| if exact { rng.range(0, 4000) as f64 / 8.0 } else { (rng.unit_f64() * 1000.0 * 1e3).round() / 1e3 };
     match rng.below(12) {
         0 => None,
@@ -453,7 +454,7 @@ fn gen_il(rng: &mut Rng, consistent: bool) -> Vec<(String, Vec<(String, usize, F
     for n in names.iter().take(1 + rng.below(3)) {
         if rng.chance(1, 3) { continue; }
         let mut g: Vec<(String, usize, FV)> = vec![];
-        for u in ["", "g", "kg"] { for k in 0..4usize {
+        for u in ["", "g", "kg", "T", "t", "G"] { for k in 0..4usize {
             if !rng.chance(1, 3) { continue; }
             let kv = if consistent || rng.chance(3, 4) { k } else { rng.below(4) };
             let v = match kv { 0 => FV::Number(rng.range(0, 80) as f64 / 8.0), 1 => FV::Range(rng.range(0, 8) as f64, rng.range(8, 16) as f64), 2 => FV::Text(rng.pick(&["a", "b ", ""]).to_string()), _ => FV::Empty };
